@@ -64,10 +64,48 @@ fn search_nodes(st: &mut ImplState, b: &Board, d: u8) -> u64 {
     s.verif_timer().nodes()
 }
 
+/// a position in which the side to move has exactly ONE legal move (forced replies are a classic place for shortcuts)
+pub fn single_reply_position(g: &Gen, rng: &mut Rng) -> Option<Board> {
+    for _ in 0..4000 {
+        let cand = if rng.chance(1, 2) { small_position(g, rng) } else { Some(g.playout(rng, 100)) };
+        if let Some(b) = cand {
+            if crate::refchess::valid(&b) && g.mg.generate_moves(&b).len() == 1 { return Some(b); }
+        }
+    }
+    None
+}
+
+/// the move counters are part of the position text the engine is given; nothing the search concludes may depend on them
+pub fn vary_counters(b: &mut Board, rng: &mut Rng) {
+    if rng.chance(1, 2) {
+        b.halfmove_clock = *rng.pick(&[0u32, 1, 13, 14, 49, 50, 97, 98, 99, 100, 101, 150, 500]) as _;
+        b.fullmove_counter = *rng.pick(&[1u32, 2, 40, 80, 255, 256, 3000]) as _;
+    }
+}
+
+/// nodes a FRESH searcher spends on a completed depth-`d` search of `b`, capped (the cap is a node-budget deadline)
+pub fn nodes_capped(b: &Board, d: u8, cap: u64) -> u64 {
+    let mut s = crate::search::Searcher::new();
+    s.verif_set_node_limit(Some(cap));
+    s.find_best_move(b, d, Some(std::time::Duration::from_secs(3600)));
+    s.verif_timer().nodes()
+}
+
+/// the largest depth <= d at which a fresh search of `b` stays under `cap` nodes (0 = not even depth 1): quiescence
+/// follows every check without a depth limit, so a few plies in a middlegame can be millions of nodes — such searches are
+/// neither replayable by the (much slower) model nor needed
+pub fn affordable_depth(b: &Board, d: u8, cap: u64) -> u8 {
+    let mut d = d;
+    while d > 0 && nodes_capped(b, d, cap) >= cap { d -= 1; }
+    d
+}
+
 pub fn pick_search_position(g: &Gen, st: &mut ImplState, rng: &mut Rng, out: &mut Out, qcap: u64) -> Board {
     loop {
-        let cand = if rng.chance(3, 4) { small_position(g, rng) } else { Some(g.playout(rng, 80)) };
-        if let Some(b) = cand {
+        let cand = if rng.chance(1, 8) { let c = single_reply_position(g, rng); if c.is_some() { out.count("single_reply_candidates"); } c }
+                   else if rng.chance(3, 4) { small_position(g, rng) } else { Some(g.playout(rng, 80)) };
+        if let Some(mut b) = cand {
+            vary_counters(&mut b, rng);
             if !crate::refchess::valid(&b) { continue; }
             match qsize(st, &b, qcap) {
                 Some(_) => { out.count("search_pos_accepted"); return b; }
@@ -102,7 +140,8 @@ pub fn run(rng: &mut Rng, n: usize, out: &mut Out, which: &str) {
                 for _ in 0..(1 + rng.below(4)) {
                     let b = if rng.chance(1, 3) { g.playout(rng, 40) } else { pick_search_position(&g, &mut st, rng, out, 3000) };
                     if qsize(&mut st, &b, 20000).is_none() { out.count("skipped_explosive_quiescence"); continue; }
-                    let d = 1 + rng.below(3);
+                    let d = affordable_depth(&b, 1 + rng.below(3) as u8, 40000);
+                    if d == 0 { out.count("skipped_explosive_search"); continue; }
                     let lim = match rng.below(4) { 0 => format!("nodes:{}", 1 + rng.below(400)), 1 => format!("polls:{}", rng.below(300)), _ => "none".to_string() };
                     let op = format!("s.go {} {} {}", board_text(&b), d, lim);
                     let a = out.run(&mut st, &op);
@@ -119,8 +158,10 @@ pub fn run(rng: &mut Rng, n: usize, out: &mut Out, which: &str) {
             // ------------------------------------------------------------------ C05 value = minimax
             "c05" => {
                 let b = pick_search_position(&g, &mut st, rng, out, 400);
-                let d = 1 + rng.below(3) as u8;
-                let mut budget = 4000i64;
+                // depth 4 (transpositions inside one search appear from there on) for one case in four; the reference
+                // minimax is un-pruned, so the q-finite sub-tree budget below keeps those to small positions
+                let d = if rng.chance(1, 4) { 4 } else { 1 + rng.below(3) as u8 };
+                let mut budget = if d == 4 { 9000i64 } else { 4000i64 };
                 if !subtree_q_ok(&g, &mut st, &b, d, 400, &mut budget) { out.count("rejected_subtree_not_qfinite_under_cap"); case -= 1; continue; }
                 let (score, mv, deeper) = st.fresh_search(&b, d);
                 let op = format!("s.value {} {} {}", board_text(&b), d, opt_mv_text(&mv));
@@ -194,6 +235,8 @@ pub fn run(rng: &mut Rng, n: usize, out: &mut Out, which: &str) {
                 plan.push((b, 1));
                 for (p, d) in plan {
                     if qsize(&mut st, &p, 3000).is_none() { out.count("skipped_explosive_quiescence"); continue; }
+                    let d = affordable_depth(&p, d, 30000);
+                    if d == 0 { out.count("skipped_explosive_search"); continue; }
                     let before: Vec<String> = watch.iter().map(|w| out.run(&mut st, &format!("s.ttdepth {}", board_text(w)))).collect();
                     let lim = if rng.chance(1, 5) { format!("nodes:{}", 1 + rng.below(300)) } else { "none".to_string() };
                     let op = format!("s.go {} {} {}", board_text(&p), d, lim);
